@@ -227,6 +227,9 @@ TECMP::CaptureModulePayload::CaptureModulePayload()
 TECMP::CaptureModulePayload::CaptureModulePayload(const uint8_t* data, const size_t size)
     : Payload(TECMP::PayloadType::cmStatMsg, data, size)
 {
+    // All accessors read from the fixed part, which has to be present completely
+    if (size < sizeof(Header))
+        type = TECMP::PayloadType::invalid;
 }
 uint8_t TECMP::CaptureModulePayload::Header::getVendorId() const
 {
